@@ -1,7 +1,7 @@
 """Rule families shared by several properties."""
 from ..core import (B, L, SF, W, FnView, cname, rname, is_call_to, call_args, children, walk, line_of,
                     show, tmatch, poly, pshow, pow2form, pow2show, linform, is_none, some_of, is_len_of, NotPoly, enum_paths,
-                    TooManyPaths, diverges, subterms, contains, mk_bin, fmt_template, decode_format,
+                    TooManyPaths, diverges, subterms, contains, mk_bin, fmt_template, decode_format, lift_if, if_leaves,
                     decode_arguments)
 from ..facts import norm_path
 
@@ -334,8 +334,7 @@ def acc_family(ctx, rule, fv, who, seq_term, norm_term, n_term=None, k_term=None
     key = mk_bin("min", ("proj", 0, item), ("proj", 1, item))
     # bucket & total
     muts = {lid: b for lid, b in fv.binds.items() if b["mut"] and b["val"][0] == "node"}
-    bucket = [(lid, b) for lid, b in muts.items()
-              if fv.term(b["val"][1])[0] == "call" and fv.term(b["val"][1])[1].endswith("from_elem")]
+    bucket = [(lid, b) for lid, b in muts.items() if zero_vec_len(fv.term(b["val"][1]), True) is not None]
     totals = [(lid, b) for lid, b in muts.items() if fv.term(b["val"][1]) == L(0.0)]
     if len(bucket) != 1 or len(totals) != 1:
         ctx.fail(rule, "%s:bucket" % who, "expected one zero-filled vector and one f64 total starting at 0.0 "
@@ -346,7 +345,7 @@ def acc_family(ctx, rule, fv, who, seq_term, norm_term, n_term=None, k_term=None
     bv = ("local", bb["name"], bl)
     tv = ("local", tb["name"], tl)
     alloc = fv.term(bb["val"][1])
-    ctx.check(rule, "%s:bucket" % who, alloc[2] == L(0.0) and alloc[3] == n_term,
+    ctx.check(rule, "%s:bucket" % who, zero_vec_len(alloc) == n_term,
               "bucket = vec![0.0; %s]" % show(n_term),
               "bucket is `%s`, expected %s zeroes" % (show(alloc), show(n_term)), line_of(bb["val"][1]))
     # body: straight-line effects
@@ -392,6 +391,37 @@ def normaliser(ctx, rule, fv, who, norm_term, tv, bv):
     divs = [x for x in fv.nodes if x.get("k") == "assignop" and x["op"] == "/="]
     other_div = [x for x in fv.nodes if x.get("k") == "bin" and x["op"] == "/" and x.get("ty") == "f64"
                  and contains(fv.term(x), lambda s: s == tv)]
+    if not divs and not other_div:
+        # the normalisation may live in a small helper `f(&mut bucket, total)`: analyse it with the arguments bound
+        for c, hv in helper_views(ctx, fv):
+            args = [fv.term(a) for a in call_args(c)]
+            if bv in args and tv in args:
+                hb, ht = ("param", args.index(bv)), ("param", args.index(tv))
+                hdivs = [x for x in hv.nodes if x.get("k") == "assignop" and x["op"] == "/="]
+                if len(hdivs) != 1:
+                    continue
+                d = hdivs[0]
+                rt = hv.term(d["r"])
+                ctx.check(rule, "%s:divisor" % who, rt == mk_bin("max", L(1.0), ht), "divisor = max(1.0, total) (in helper %s)" % hv.path,
+                          "helper %s divides by `%s`; a record without valid windows must divide by max(1.0, total)"
+                          % (hv.path, show(rt)), line_of(d))
+                gs = [(fv.term(g), pol) for g, pol in fv.guards(c)]
+                ctx.check(rule, "%s:norm_guard" % who, (norm_term, True) in gs and len(gs) == 1 and not hv.guards(d),
+                          "normalisation only under %s" % show(norm_term),
+                          "normalisation helper is called under %s, expected exactly `%s`"
+                          % ([("" if p else "!") + show(g) for g, p in gs], show(norm_term)), line_of(c))
+                fe = hv.enclosing(d, ("closure",))
+                host = hv.parent.get(id(fe)) if fe is not None else hv.enclosing(d, ("for",))
+                ok_all = False
+                if host is not None and host.get("k") == "mcall" and cname(host).endswith("Iterator::for_each"):
+                    r2 = hv.term(host["recv"])
+                    ok_all = r2[0] == "call" and r2[1].endswith("iter_mut") and r2[2] == hb
+                elif host is not None and host.get("k") == "for":
+                    it = hv.term(host["iter"])
+                    ok_all = (it[0] == "call" and it[1].split("::")[-1] in ("iter_mut", "into_iter") and it[2] == hb) or it == hb
+                ctx.check(rule, "%s:norm_all" % who, ok_all, "every element of the bucket is divided",
+                          "the helper's division does not run over every element of the bucket", line_of(d))
+                return
     if len(divs) != 1 or other_div:
         ctx.fail(rule, "%s:normalise" % who, "expected exactly one in-place division of the vector (found %d, "
                  "plus %d other divisions by the total)" % (len(divs), len(other_div)), fv.fn["sp"])
@@ -416,7 +446,7 @@ def normaliser(ctx, rule, fv, who, norm_term, tv, bv):
         ok_all = rt2[0] == "call" and rt2[1].endswith("iter_mut") and rt2[2] == bv
     elif host is not None and host.get("k") == "for":
         it = fv.term(host["iter"])
-        ok_all = it[0] == "call" and it[1].endswith("iter_mut") and it[2] == bv
+        ok_all = (it[0] == "call" and it[1].split("::")[-1] in ("iter_mut", "into_iter") and it[2] == bv) or it == bv
     ctx.check(rule, "%s:norm_all" % who, ok_all, "every element of the bucket is divided",
               "the division does not run over bucket.iter_mut()", line_of(d))
 
@@ -436,13 +466,21 @@ def formats_in(fv, root=None):
 
 def number_format_rule(ctx, rule, fv, who, root, norm_term, expect_norm_only=False):
     """value formatting: under norm -> 6 decimals (NUMBER_SIZE-2), otherwise plain display"""
-    fmts = [(n, ft) for n, ft in formats_in(fv, root)
+    fmts = [(n, ft, fv) for n, ft in formats_in(fv, root)
             if len(ft[1]) == 1 and ft[1][0][0] == "arg"]
+    if not fmts and ctx is not None:
+        for c, hv in helper_views(ctx, fv):
+            if root is not None and not any(x is c for x in walk(root)):
+                continue
+            got = [(n, ft, hv) for n, ft in formats_in(hv) if len(ft[1]) == 1 and ft[1][0][0] == "arg"]
+            # one helper serving k call sites counts k times (the sites were duplicated code before)
+            calls = [x for x in fv.nodes if x.get("k") in ("call", "mcall") and (rname(x) == hv.path or cname(x) == hv.path)]
+            fmts.extend(got * max(1, len(calls)))
     n_ok = 0
-    for n, ft in fmts:
+    for n, ft, vv in fmts:
         piece = ft[1][0]
         prec = piece[3]
-        gs = [(fv.term(c), pol) for c, pol in fv.guards(n)]
+        gs = [(vv.term(c), pol) for c, pol in vv.guards(n)]
         under_norm = (norm_term, True) in gs
         under_raw = (norm_term, False) in gs
         if expect_norm_only:
@@ -846,3 +884,39 @@ def exhaustion_verdict(t, pol, pos_t=None, seq_t=None):
     if t[1] == "<=":     # len <= pos -> exhausted ; pos <= len -> nothing known
         return pol if side == "len_pos" else None
     return None
+
+
+
+def zero_vec_len(t, zero=None):
+    """N when t allocates N copies of `zero` (default 0.0): vec![z; N] or repeat(z).take(N).collect(); else None"""
+    zero = L(0.0) if zero is None else zero
+    if t[0] == "call" and t[1].endswith("from_elem") and len(t) == 4 and (zero is True or t[2] == zero):
+        return t[3]
+    if t[0] == "call" and t[1].endswith("Iterator::collect") and len(t) == 3:
+        a = t[2]
+        if a[0] == "call" and a[1].endswith("Iterator::take") and len(a) == 4:
+            r = a[2]
+            if r[0] == "call" and r[1].endswith("::repeat") and len(r) == 3 and (zero is True or r[2] == zero):
+                return a[3]
+    if t[0] == "call" and t[1].endswith("::repeat_n") and len(t) == 4 and (zero is True or t[2] == zero):
+        return t[3]
+    return None
+
+
+
+def helper_views(ctx, fv):
+    """FnViews of same-crate workspace functions called directly from fv (one level): small helpers a
+    maintainer may have extracted.  Returns [(call_node, view)]."""
+    crate = fv.path.lstrip("<").split("::")[0]
+    out = []
+    seen = set()
+    for n in fv.nodes:
+        if n.get("k") not in ("call", "mcall"):
+            continue
+        for nm in (rname(n), cname(n)):
+            if nm and nm.lstrip("<").split("::")[0] == crate and nm != fv.path and nm not in seen:
+                v = ctx.view(nm)
+                if v is not None:
+                    seen.add(nm)
+                    out.append((n, v))
+    return out
